@@ -106,5 +106,5 @@ PROFILES = [
 
 FILES = {
     "CodeFunEval": {"imports": ["FlVerif.Op.PyExtFunEval"]},
-    "CodeFldReader": {"imports": ["FlVerif.Op.PyExtFunEval"]},
+    "CodeFldReader": {"imports": ["FlVerif.Op.PyExtFunEvalFld"]},
 }
